@@ -1170,7 +1170,13 @@ def gen_function(env):
 #   same       def f(n): n = n + 1 ; return n * 2           re-bound to its own type, one argument type
 #   strsame    def f(s): s = s + "!" ; return s             String only
 #   via        def g(y: int): return f(y)  /  def g(z: float): return f(z)     calls of a rebind helper from inside functions
-POLY_KINDS = ["rebind", "rebind", "rebind2", "overload", "overload", "show", "mono", "same", "strsame"]
+#   recursive  def f(n): if n <= 1: return 1 ; return n * f(n - 1)                  a function that mentions itself
+#   listparam  def f(xs): t = 0 ; for i in range(len(xs)): t = t + xs[i] ; return t   called with a list variable
+#   listret    def f(n: int): out = [n, n + 1] ; return out                          returns a list
+#   globalmut  def f(): global g ; g = g + 1                                          assigns a global
+#   nothing    def f(): pass     /    def f(): return                                 empty bodies
+POLY_KINDS = ["rebind", "rebind", "rebind2", "overload", "overload", "show", "mono", "same", "strsame",
+              "recursive", "listparam", "listret", "globalmut", "nothing"]
 POLY_FN_POOL = ["half", "halve", "scale2", "twice", "dup", "emit_v", "show_v", "mul1", "bump", "exclaim", "quarter", "norm", "mixin", "echo_v", "tag"]
 
 
@@ -1220,6 +1226,25 @@ def gen_poly_function(env, kind=None):
         info["num"] = "int"
     elif kind == "strsame":
         lines = [f"def {name}({p}: str):"] + indent([f"{p} = {p} + {py_literal(rng, gen_printable(rng, 3) or '!')}", f"return {p}"])
+    elif kind == "recursive":
+        ann = rng.choice(["", ": int"])
+        lines = [f"def {name}({p}{ann}):"] + indent([f"if {p} <= 1:", "    return 1", f"return {p} * {name}({p} - 1)"])
+    elif kind == "listparam":
+        et = rng.choice(["int", "float"])
+        info["num"] = et
+        zero = "0" if et == "int" else "0.0"
+        ann = rng.choice(["", "", f": list[{et}]"])
+        lines = [f"def {name}({p}{ann}):"] + indent([f"{q} = {zero}", f"for i in range(len({p})):", f"    {q} = {q} + {p}[i]", f"return {q}"])
+    elif kind == "listret":
+        lines = [f"def {name}({p}: int):"] + indent([f"{q} = [{p}, {p} + 1]", f"return {q}"])
+    elif kind == "globalmut":
+        gs = [n for n, t in env.vars.items() if t == "int"]
+        if not gs:
+            return gen_poly_function(env, "nothing")
+        info["global"] = rng.choice(gs)
+        lines = [f"def {name}():"] + indent([f"global {info['global']}", f"{info['global']} = {info['global']} + 1"])
+    elif kind == "nothing":
+        lines = [f"def {name}():"] + indent([rng.choice(["pass", "return"])])
     elif kind == "via":
         targets = [f for f, i in env.poly.items() if i["kind"] == "rebind"]
         if not targets:
@@ -1267,6 +1292,17 @@ def poly_call(env, f=None, alt=None):
         return f"{f}({_str_exact(env)})", "String"
     if kind == "via":
         return f"{f}({_num_exact(env, i['num'])})", "float"
+    if kind == "recursive":
+        return f"{f}({rng.choice(['1', '3', '5'] + env.vars_of('int'))})", "int"
+    if kind == "listparam":
+        ls = env.vars_of(f"list[{i['num']}]")
+        if not ls:
+            return f"{f}([{', '.join((lit_int if i['num'] == 'int' else lit_float)(rng) for _ in range(rng.randint(1, 3)))}])", i["num"]
+        return f"{f}({rng.choice(ls)})", i["num"]
+    if kind == "listret":
+        return f"{f}({_num_exact(env, 'int')})", "list[int]"
+    if kind in ("globalmut", "nothing"):
+        return f"{f}()", None
     raise AssertionError(kind)
 
 
@@ -1276,7 +1312,7 @@ def poly_call_stmt(env, f=None, alt=None):
     if ty is None:
         return [src]
     r = rng.random()
-    if env.poly[src.split("(")[0]]["kind"] == "overload":
+    if env.poly[src.split("(")[0]]["kind"] in ("overload", "listret", "listparam"):
         r *= 0.75                                # assignment contexts only
     if r < 0.55:
         name = env.fresh(VAR_POOL)
@@ -1341,35 +1377,73 @@ def gen_script(rng, opts=None):
         plan += [(k, i) for i in ifaces]
     if multi:
         rng.shuffle(plan)                      # kinds interleaved: led, lcd(i2c), servo, led2, lcd(parallel), ...
-    for k, iface in plan:
+    # layout of the part before the main loop ("devices declared before the main loop" - anywhere before it):
+    #   default             devices, globals, functions, statements
+    #   interleave          devices and globals alternate (a global may read a device declared above it)
+    #   fns_before_devices  globals, functions, devices, statements: a function is DEFINED above the device it drives
+    layout = opts.get("layout", "default")
+    sec_devs, sec_globals, sec_fns = [], [], []
+
+    def declare_next():
+        k, iface = plan.pop(0)
         d = declare_device(env, k, pins, iface=iface)
         if d:
-            lines.append(d)
+            (sec_globals if layout == "interleave" else sec_devs).append(d)
             if len(env.devs.get(k, [])) > 1:
                 env.feat("second instance of " + k)
+
+    def globals_(n_vars, n_lists):
+        for _ in range(n_vars):
+            sec_globals.extend(assign_new(env))
+        for _ in range(n_lists):
+            sec_globals.extend(list_new(env))
+
+    n_vars, n_lists = rng.randint(1, 5), rng.randint(0, 2)
+    if layout == "fns_before_devices":
+        globals_(n_vars, n_lists)              # generated before any device exists: they cannot read one
+        while plan:
+            declare_next()
+    elif layout == "interleave":
+        todo = ["d"] * len(plan) + ["v"] * n_vars + ["l"] * n_lists
+        rng.shuffle(todo)
+        for t in todo:
+            if t == "d":
+                declare_next()
+            else:
+                globals_(1 if t == "v" else 0, 1 if t == "l" else 0)
+        env.feat("layout interleave")
+    else:
+        while plan:
+            declare_next()
+        globals_(n_vars, n_lists)
     ifs = {env.dev_opts[n]["interface"] for n in env.devs.get("LCD", [])}
     if len(ifs) == 2:
         env.feat("both LCD interfaces")
-    # globals
-    for _ in range(rng.randint(1, 5)):
-        lines += assign_new(env)
-    for _ in range(rng.randint(0, 2)):
-        lines += list_new(env)
     # polymorphic helpers first (the ordinary functions below may call them; nothing calls forward)
     npoly = opts.get("poly", 0) if opts.get("poly") is not None else 0
     if not npoly and rng.random() < 0.25:
         npoly = 1
     for j in range(npoly):
-        lines += gen_poly_function(env, (opts.get("poly_kinds") or [None] * npoly)[j % max(1, len(opts.get("poly_kinds") or [None]))])
+        sec_fns += gen_poly_function(env, (opts.get("poly_kinds") or [None] * npoly)[j % max(1, len(opts.get("poly_kinds") or [None]))])
     if npoly and any(i["kind"] == "rebind" for i in env.poly.values()) and rng.random() < 0.5:
-        lines += gen_poly_function(env, "via")
+        sec_fns += gen_poly_function(env, "via")
     # functions
     for _ in range(rng.choice([0, 1, 1, 2, 3])):
-        lines += gen_function(env)
+        sec_fns += gen_function(env)
+    if layout == "fns_before_devices":
+        lines += sec_globals + sec_fns + sec_devs
+        if sec_fns and sec_devs:
+            env.feat("layout functions before devices")
+    else:
+        lines += sec_devs + sec_globals + sec_fns
     # boundary call sites: each polymorphic helper is called with BOTH argument classes - in either order, at top level
     # (setup) or later from the main loop / a nested block (then only the generic polycall statements reach it)
     late = []
     for f, i in list(env.poly.items()):
+        if i["kind"] == "listparam":
+            # an un-annotated parameter that is used as a list must see a list argument in an assignment, or the helper keeps
+            # its int default (listed finding F-C06-call-site-unspecialised)
+            lines += poly_call_stmt(env, f, 0)
         if i["kind"] in ("rebind", "rebind2", "overload", "via"):
             order = rng.choice([[0, 1], [1, 0], [0, 1, 0], [1, 1, 0]])
             where = rng.random()
@@ -1487,6 +1561,8 @@ def shapes_of(src: str):
             if isinstance(n, ast.Name) and n.id == v and n.lineno > f.end_lineno and not any(a <= n.lineno <= b for a, b in spans):
                 out.add("for-var-after-loop")
     for n in ast.walk(tree):
+        if isinstance(n, (ast.For, ast.comprehension)) and not (isinstance(n.iter, ast.Call) and isinstance(n.iter.func, ast.Name) and n.iter.func.id == "range"):
+            out.add("for-not-range")
         if isinstance(n, ast.Constant) and isinstance(n.value, str) and not n.value.isprintable():
             out.add("non-printable-literal")
         if isinstance(n, ast.BinOp) and isinstance(n.op, ast.Pow):
